@@ -672,20 +672,27 @@ macro_rules! assert_vfs_write_all {
             Ok(x) => x,
             _ => panic_msg!("assert_vfs_write_all!", "failed to get absolute path", $path),
         };
-        if $vfs.exists(&target) {
-            if !$vfs.is_file(&target) {
-                panic_msg!("assert_vfs_write_all!", "is not a file", &target);
-            }
-        } else {
-            match $vfs.write_all(&target, $data) {
-                Ok(_) => {
-                    if !$vfs.is_file(&target) {
-                        panic_msg!("assert_vfs_write_all!", "is not a file", &target);
-                    }
-                },
-                _ => panic_msg!("assert_vfs_write_all!", "failed while writing file", &target),
-            };
+        if $vfs.exists(&target) && !$vfs.is_file(&target) {
+            panic_msg!("assert_vfs_write_all!", "is not a file", &target);
         }
+        match $vfs.write_all(&target, $data) {
+            Ok(_) => {
+                if !$vfs.is_file(&target) {
+                    panic_msg!("assert_vfs_write_all!", "is not a file", &target);
+                }
+                match $vfs.read(&target) {
+                    Ok(mut f) => {
+                        let mut written: Vec<u8> = Vec::new();
+                        let expected: &[u8] = $data.as_ref();
+                        if f.read_to_end(&mut written).is_err() || &written[..] != expected {
+                            panic_msg!("assert_vfs_write_all!", "file content doesn't equal the given data", &target);
+                        }
+                    },
+                    _ => panic_msg!("assert_vfs_write_all!", "failed while reading file back", &target),
+                };
+            },
+            _ => panic_msg!("assert_vfs_write_all!", "failed while writing file", &target),
+        };
     };
 }
 
